@@ -9,7 +9,7 @@ WORK = os.path.join(ROOT, "work")
 CACHE = os.path.join(WORK, "cache")
 HARNESS = os.path.join(ROOT, "harness")
 MQV = os.path.join(HARNESS, "target", "debug", "mqv")
-REPO = "/repo"
+REPO = os.environ.get("VERIF_REPO", "/repo")      # background sweeps (bin/bgrun.sh) point this at a snapshot of /repo
 NCPU = os.cpu_count() or 8
 
 
